@@ -170,6 +170,16 @@ func init() {
 			return []*Term{Implies(small, Eq(app, sum))}
 		}
 		var frame []*Term
+		// a range whose length is not syntactically constant but turns out to be 4 or 8 (fixed
+		// ICMP/UDP headers handed over as slices): the explicit sum again (the definition
+		// unrolled; saves the rounds of peeling)
+		for _, k := range []int64{4, 8} {
+			sum := BVi(0, 64)
+			for j := int64(0); j+1 < k; j += 2 {
+				sum = Add(sum, b16(Add(lo, BVi(j, 64))))
+			}
+			frame = append(frame, Implies(And(small, Eq(n, BVi(k, 64))), Eq(app, sum)))
+		}
 		if row.Op == "store" {
 			// the sum depends only on row[lo..hi): a store outside that range does not change it
 			i := row.Args[1]
